@@ -64,12 +64,15 @@ type c09Call struct {
 	// toollist: index of the tool list carried in wave w (ListSeq[w % len]; -1 = no option), and the tool calls of the input message
 	ListSeq []int      `json:"listSeq,omitempty"`
 	TCalls  []c09TCall `json:"tcalls,omitempty"`
+	// errpath: which compiled object of the case the call goes to (the directive is part of In: "<token>~<dir>")
+	Obj int `json:"obj,omitempty"`
 }
 
 type c09Case struct {
 	Kind      string       `json:"kind"`          // pregel|dag|workflow|chain|nested|checkpoint|react|host|wfstraggler|optshare|toollist
 	Opt       *c09OptShare `json:"opt,omitempty"` // optshare (c09_opts.go)
 	TL        *c09ToolList `json:"tl,omitempty"`  // toollist (c09_opts.go)
+	Err       *c09ErrPath  `json:"err,omitempty"` // errpath (c09_errs.go)
 	Layers    []c09Layer   `json:"layers,omitempty"`
 	NestFrom  int          `json:"nestFrom,omitempty"` // nested: layers[NestFrom:NestTo] form the inner graph
 	NestTo    int          `json:"nestTo,omitempty"`
@@ -969,6 +972,12 @@ func c09BuildRunner(c *c09Case) (c09Runner, error) {
 			return nil, err
 		}
 		return c09ToolListRunner(c, r), nil
+	case "errpath":
+		rs, err := c09BuildErrPath(c)
+		if err != nil {
+			return nil, err
+		}
+		return c09ErrPathRunner(c, rs), nil
 	case "wfstraggler":
 		r, err := c09BuildStraggler(c)
 		if err != nil {
